@@ -25,6 +25,15 @@ TRUSTED = [
     "outcome), the state backends (replaced by a store: a PASS leaves the set states in the executing worker's own pool; "
     "check consults own/shared pool by scope), lazy expansion of flat leaves and replay of previous jobs (not in this model)",
     "virtual-time event loop of the harness (asyncio.SelectorEventLoop subclass)",
+    "harness/pygen.py (Python AST -> Lean, fails closed) regenerates I2N/Extracted/GenScope.lean on every run from "
+    "TestNode.is_started / is_finished (the selection between counting per worker / per swarm / globally; the three "
+    "branch bodies are pinned verbatim and stand for the Boolean they return) and from travlib.shape_of (the `shape=` "
+    "field of the static lines); isStarted_matches_source / isFinished_matches_source prove that, with the exported "
+    "shape, the model's isStarted / isFinished is that selection over the model's three arms.  Trusted: the translator; "
+    "the atoms (`self.is_flat()`, `self.params.get('nets_spawner')`, `'swarm' / 'cluster' in self.params['pool_scope']` "
+    "are pure, total and stable during the call; `worker` stands for its truthiness - TestWorker defines neither "
+    "__bool__ nor __len__); Props.C04.shapeOfField restates how Driver/Trav.lean parses the `shape=` field; the three "
+    "pinned bodies are mirrored by hand in scopeCount (tied by the correspondence run only)",
 ]
 CORPUS = os.path.join(vlib.VERIF, "corpus", PROP)
 
@@ -47,3 +56,14 @@ def search(ctx, reason):
 
 def replay(ctx, payload):
     trav_common.replay_case(ctx, payload, MONITORS)
+
+
+def extract(ctx):
+    """lean/I2N/Extracted/GenScope.lean from the AST of /repo's cartgraph/node.py and of harness/travlib.py (second tie,
+    see harness/pygen.py).  Raises when a function left the translated subset or a pinned body changed: run.py records
+    that as a proof problem."""
+    import pygen
+    if pygen.extract_scope(ctx):
+        ctx.notes.append("I2N/Extracted/GenScope.lean changed: the scope selection of TestNode.is_started / is_finished "
+                         "(or travlib.shape_of) differs from the one the committed file was generated from")
+    ctx.extra["regenerated"] = "lean/I2N/Extracted/GenScope.lean (TestNode.is_started, is_finished, travlib.shape_of via harness/pygen.py)"
